@@ -22,6 +22,24 @@ CHECKS = {
     "C04": dict(level="model_checking", tech="symbolic differential: real tokenizer vs declarative greedy segmentation on the same symbolic stream, z3 decides equality per path",
                 text="Bounded equivalence (N<=6 quick / 10 thorough frames, unbounded parameters, 4 modes) between the real tokenizer and a reference written from the statement; consequences asserted separately.",
                 ref="§5 C04"),
+    "C08": dict(level="model_checking", tech="symbolic execution + z3: 3+N real runs per path (generator, callback, list, every prefix) with a counting source",
+                text="Hand-over moment, single end-of-stream request, delivery-mode equality and prefix consistency decided per path for streams of <=5 (quick) / 8 (thorough) frames with unbounded parameters; split() laziness on the byte-level harness.",
+                ref="§5 C08"),
+    "C10": dict(level="model_checking", tech="symbolic execution over an uninterpreted byte sequence (segment lists, LIA lengths), z3 decides block identity and existence",
+                text="K consecutive reads (6 quick / 12 thorough) of the real AudioReader stack with source length, block, hop and max_read as unbounded integers; all overlap/limiter/recorder combinations and four input kinds.",
+                ref="§5 C10"),
+    "C11": dict(level="model_checking", tech="symbolic execution + z3 against a model state; file sources through I/O stubs",
+                text="Buffer source from an arbitrary position through every sequence of K operations (2 quick / 3 thorough) with unbounded arguments; raw/wav/stdin sources through every sequence of 3/5 reads.",
+                ref="§5 C11"),
+    "C16": dict(level="model_checking", tech="symbolic execution + z3 (QF_LIA + byte-segment normalisation): slice semantics for all integers n, a, b",
+                text="Real AudioRegion.__getitem__ and the seconds/milliseconds views for unbounded region length and bounds; time bounds as exact rationals.",
+                ref="§5 C16"),
+    "C19": dict(level="model_checking", tech="symbolic execution + z3 over every operation history of length K",
+                text="Every history of 5 (quick) / 8 (thorough) operations out of read/rewind/.data on a recording reader with unbounded n, block, hop, max_read.",
+                ref="§5 C19"),
+    "C20": dict(level="model_checking", tech="symbolic execution + z3: stale-state over-approximation and real two-run histories vs a fresh object",
+                text="Tokenizer with every per-run field arbitrary vs fresh (over-approximation of any history) and real two-run histories (complete, partially consumed, closed generator); other objects by differential runs in one path.",
+                ref="§5 C20"),
 }
 
 
